@@ -61,7 +61,7 @@ Section SynExt.
       destruct (negb (rel_check sc vars (eqne op) (OAttr v ch) r)); try discriminate.
       destruct (toperand sc sel root (set_io io st) (OAttr v ch)) as [a st1| | |] eqn:E1; try discriminate.
       destruct (toperand sc sel root st1 r) as [b st2| | |] eqn:E2; try discriminate.
-      destruct (lit_mismatch sc vars (OAttr v ch) r || lit_mismatch sc vars r (OAttr v ch)); try discriminate.
+      destruct (cmp_mismatch sc vars (OAttr v ch) r); try discriminate.
       destruct (negb (eqne op) && (enum_col sc vars (OAttr v ch) || enum_col sc vars r)); try discriminate.
       destruct (mk_cmp op a b); try discriminate. injection H as _ <-.
       eapply ext_trans; [apply (ext_set_io io)|].
@@ -814,7 +814,7 @@ Proof.
   rewrite E. destruct (negb (rel_check sc (q_vars q) (eqne op) l r)); try discriminate.
   destruct (toperand sc (q_sel q) root (set_io false jm0) l) as [a st1| | |]; try discriminate.
   destruct (toperand sc (q_sel q) root st1 r) as [b st2| | |]; try discriminate.
-  destruct (lit_mismatch sc (q_vars q) l r || lit_mismatch sc (q_vars q) r l); try discriminate.
+  destruct (cmp_mismatch sc (q_vars q) l r); try discriminate.
   rewrite Ho, He. discriminate.
 Qed.
 
@@ -869,7 +869,7 @@ Proof.
   cbn [tcond]. unfold tcmp. rewrite teqjoin_lit_none.
   destruct (negb (rel_check sc (q_vars q) (eqne op) (OAttr v ch) (OLit lit))); try discriminate.
   destruct (toperand sc (q_sel q) root (set_io false jm0) (OAttr v ch)) as [a st1| | |]; try discriminate.
-  cbn [toperand lit_mismatch]. rewrite Hm. discriminate.
+  cbn [toperand]. unfold cmp_mismatch. cbn [lit_mismatch]. rewrite Hm. discriminate.
 Qed.
 (* a join equality whose side is a chain of more than one hop is no join: the other variable's attribute is rejected *)
 Theorem rejects_long_join sc q v1 a1 b1 ch1 v2 ch2 :
@@ -883,3 +883,23 @@ Proof.
   destruct (toperand sc (q_sel q) root (set_io false jm0) (OAttr v1 (a1 :: b1 :: ch1))) as [a st1| | |]; try discriminate.
   unfold toperand, tattr. apply Z.eqb_neq in Hv. rewrite Hv. discriminate.
 Qed.
+(* a text attribute against a numeric attribute of the same variable (4f6a661) *)
+Theorem rejects_text_number_columns sc q op v ch1 ch2 :
+  q_cond q = Some (CCmp op (OAttr v ch1) (OAttr v ch2)) ->
+  col_mismatch sc (q_vars q) (OAttr v ch1) (OAttr v ch2) = true -> forall s, translate sc q <> TOk s.
+Proof.
+  intros Hc Hm s. unfold translate. destruct (q_setof q); try discriminate. rewrite Hc.
+  destruct (assoc (q_sel q) (q_vars q)) as [root|]; try discriminate.
+  cbn [tcond]. unfold tcmp.
+  assert (E : forall st, teqjoin sc (q_vars q) (q_sel q) root false st op (OAttr v ch1) (OAttr v ch2) = None).
+  { intros st. destruct op; try reflexivity; destruct ch1 as [|a1 [|]]; try reflexivity; destruct ch2 as [|a2 [|]]; try reflexivity.
+    cbn [teqjoin]. now rewrite Z.eqb_refl. }
+  rewrite E. destruct (negb (rel_check sc (q_vars q) (eqne op) (OAttr v ch1) (OAttr v ch2))); try discriminate.
+  destruct (toperand sc (q_sel q) root (set_io false jm0) (OAttr v ch1)) as [a st1| | |]; try discriminate.
+  destruct (toperand sc (q_sel q) root st1 (OAttr v ch2)) as [b st2| | |]; try discriminate.
+  unfold cmp_mismatch. rewrite Hm, !orb_true_r. discriminate.
+Qed.
+Lemma fixed_round8 :       (* b.name == b.size (text against number, two columns) is rejected; an iterator container is an unknown operand *)
+  translate Wit.sc (Wit.mk false [(1, 5)] (CCmp OEq (OAttr 1 [1]) (OAttr 1 [9]))) = TReject /\
+  translate Wit.sc (Wit.mk false [(1, 5)] (CCmp OLt (OAttr 1 [9]) (OAttr 1 [1]))) = TReject.
+Proof. split; vm_compute; reflexivity. Qed.
